@@ -513,23 +513,29 @@ impl<'a> LcView<'a> {
 /// with the reference root over its ancestors; every header served as proved is an ancestor of that
 /// block; the proof verifies against the committed root and against no sibling fork's root; a
 /// transaction served as proved is in the block named, under its transactions root.
-fn lc_family(ctx: &Ctx, report: &mut Report) -> Result<(), String> {
+fn lc_family(ctx: &Ctx, report: &mut Report, variant: usize) -> Result<(), String> {
     use ckb_light_client_protocol_server::LightClientProtocol;
     let cons = consensus(&WorldOpts::default());
     set_time(time_for_height(40));
-    let mut forge = Forge::new(&ctx.scratch.join("c19-forge-lc"), &cons)?;
+    let mut forge = Forge::new(&ctx.scratch.join(format!("c19-forge-lc-{variant}")), &cons)?;
     let u = c18::build(&mut forge, &cons)?;
     let mut by_hash: HashMap<Byte32, BlockView> = HashMap::new();
     by_hash.insert(cons.genesis_hash(), cons.genesis_block().clone());
     for x in u.a.iter().chain(u.b.iter()) {
         by_hash.insert(x.hash(), x.clone());
     }
-    let dir = ctx.scratch.join("c19-lc");
+    let dir = ctx.scratch.join(format!("c19-lc-{variant}"));
     let _ = std::fs::remove_dir_all(&dir);
     let node = Node::boot(&dir, &NodeOpts::new(cons.clone()))?;
     node.wait_startup()?;
     let mut proto = LightClientProtocol::new(node.shared.clone());
-    let order: Vec<BlockView> = u.a[..3].iter().chain(u.b[..4].iter()).chain(u.a[3..].iter()).cloned().collect();
+    // variant 0: there and back (a1..a3, b1..b4, a4..); thorough adds: B first then A overtakes and B
+    // again; a late fork (a1..a5, then all of B, then a6)
+    let order: Vec<BlockView> = match variant {
+        0 => u.a[..3].iter().chain(u.b[..4].iter()).chain(u.a[3..].iter()).cloned().collect(),
+        1 => u.b[..2].iter().chain(u.a[..3].iter()).chain(u.b[2..].iter()).chain(u.a[3..].iter()).cloned().collect(),
+        _ => u.a[..5].iter().chain(u.b.iter()).chain(u.a[5..].iter()).cloned().collect(),
+    };
     let unknown = Byte32::new([0x5A; 32]);
     let label = json!({"family": "light-client"});
     let mut asked = 0u64;
@@ -1047,9 +1053,16 @@ pub fn run(ctx: &Ctx) -> Report {
             roots_family(ctx, "dyn-shorter-heavier", &cons, &a, &b, Some(order), &mut report)?;
         }
         if ctx.mine(2) || ctx.shards == 1 {
-            lc_family(ctx, &mut report)?;
+            lc_family(ctx, &mut report, 0)?;
             lc_race_family(ctx, &mut report)?;
             assume_valid_family(ctx, &mut report)?;
+        }
+        if ctx.tier.is_thorough() {
+            for variant in [1usize, 2] {
+                if ctx.mine(2 + variant as u64) || ctx.shards == 1 {
+                    lc_family(ctx, &mut report, variant)?;
+                }
+            }
         }
         filters_family(ctx, &mut report)
     };
